@@ -19,6 +19,7 @@ import (
 	"github.com/thushan/olla/internal/config"
 	"github.com/thushan/olla/internal/verif/h/lib/report"
 	"github.com/thushan/olla/internal/verif/h/lib/stack"
+	"github.com/thushan/olla/internal/verif/shim/vsync"
 )
 
 var res *report.Result
@@ -109,6 +110,10 @@ func reqBody(r route, model string, stream bool) []byte {
 }
 
 func main() {
+	// every pool a deterministic free list; what is handed back is overwritten at once (a body that is written from a
+	// buffer after the buffer went back to its pool arrives as the pattern, not as the error object)
+	vsync.AllDeterministic = true
+	vsync.PoisonBytes = true
 	res = report.Init("C05", "fault_enumeration")
 	idx := 0
 	for _, engine := range []string{"sherpa", "olla"} {
